@@ -32,6 +32,7 @@ SEARCHES = {
     "Emcee": af.Emcee, "DynestyStatic": af.DynestyStatic, "DynestyDynamic": af.DynestyDynamic,
     "PySwarmsGlobal": af.PySwarmsGlobal, "PySwarmsLocal": af.PySwarmsLocal,
     "BFGS": af.BFGS, "LBFGS": af.LBFGS, "Drawer": af.Drawer,
+    "Zeus": af.Zeus, "Nautilus": af.Nautilus, "UltraNest": af.UltraNest,
 }
 BINOPS = {"+": "SumPrior", "*": "MultiplePrior", "/": "DivisionPrior", "//": "FloorDivPrior",
           "%": "ModPrior", "**": "PowerPrior"}
@@ -321,9 +322,16 @@ def run_fit(spec, want_abs):
                 signal.alarm(int(opts.get("fit_timeout", 90)))
                 try:
                     search.fit(model=model, analysis=Analysis())
-                except TimeoutError:
-                    out["skipped"] = "timeout"       # the sampler did not finish: nothing to observe
-                    return out
+                except BaseException as e:  # noqa
+                    # the sampler failed or ran out of time: the files written before sampling
+                    # (pre_fit_output) are still the fit's own files, if they exist
+                    files = Path(search.paths.output_path) / "files"
+                    if not ((files / "model.json").exists() and (files / "search.json").exists()):
+                        if isinstance(e, TimeoutError):
+                            out["skipped"] = "timeout"
+                            return out
+                        raise
+                    out["fit_error"] = exc_name(e)
                 finally:
                     signal.alarm(0)
             else:
